@@ -29,7 +29,7 @@ ASSUMPTIONS = ["crash points lie between requests or inside the state write of a
                "in-process restart (discarding the server object) stands for process loss; a subset uses a real killed child to validate the shortcut",
                "responses compared as parsed JSON, numeric keys as floats"]
 REQUIRED = {"crash_points_of_two_scenario_sessions": 10, "second_crashes": 40, "crash_points": 150, "post_crash_responses_compared": 1000, "torn_write_cases": 40, "servers_started_on_damaged_dir": 40}
-BUDGET_S = {"quick": 115, "thorough": 1800}
+BUDGET_S = {"quick": 170, "thorough": 1800}
 TRUNC = ["0", "1", "outer", "inner", "len-1"]
 
 
